@@ -209,6 +209,10 @@ struct Activation {
     is_main: bool,
     /// values the VM would hold below this activation's frame (0 => stack_offset == 0)
     below: usize,
+    /// statement-level values this activation has left behind so far
+    junk: u64,
+    /// loop-body scopes that are open: (index into scopes, junk at entry, a closure captured one of its variables)
+    loop_scopes: Vec<(usize, u64, bool)>,
 }
 
 #[derive(Default, Debug, Clone)]
@@ -229,6 +233,7 @@ pub struct RefStats {
     pub native_reentries: u64,
     pub max_depth: u64,
     pub expr_stmts: u64,
+    pub array_junk: u64,
     pub table_ops: u64,
     pub mixed_numeric: u64,
     pub steps: u64,
@@ -301,7 +306,7 @@ impl<'p> Interp<'p> {
         if args.len() != f.params.len() {
             return Err(ErrKind::Undefined("arity_mismatch"));
         }
-        let mut act = Activation { scopes: vec![vec![]], captured: None, is_main, below };
+        let mut act = Activation { scopes: vec![vec![]], captured: None, is_main, below, junk: 0, loop_scopes: vec![] };
         self.bind_params(&mut act, &f.params, args);
         self.run_body(&mut act, &f.body)
     }
@@ -311,7 +316,7 @@ impl<'p> Interp<'p> {
             return Err(ErrKind::Undefined("arity_mismatch"));
         }
         self.stats.closure_calls += 1;
-        let mut act = Activation { scopes: vec![vec![]], captured: Some(c.captured.clone()), is_main: false, below };
+        let mut act = Activation { scopes: vec![vec![]], captured: Some(c.captured.clone()), is_main: false, below, junk: 0, loop_scopes: vec![] };
         self.bind_params(&mut act, &c.def.params, args);
         let body = c.def.body.clone();
         self.run_body(&mut act, &body)
@@ -419,6 +424,8 @@ impl<'p> Interp<'p> {
 
     fn key_ok(&mut self, k: &RV) -> R<()> {
         match k {
+            // the property defines tables for integer, real, string and nil keys
+            RV::Func(_) | RV::Native(_) | RV::Closure(_) => Err(ErrKind::Undefined("function_key")),
             RV::Real(r) if r.is_nan() => Err(ErrKind::Undefined("nan_key")),
             RV::Real(r) if *r == 0.0 => Err(ErrKind::Undefined("zero_real_key")),
             RV::Table(_) => Err(ErrKind::Undefined("table_key")),
@@ -648,6 +655,14 @@ impl<'p> Interp<'p> {
                 if self.loop_depth > 0 {
                     self.stats.closures_created_in_loop += 1;
                 }
+                // which open loop-body scopes own a variable this closure (or a nested one) names?
+                let mut mentioned = BTreeSet::new();
+                names_in_closure(def, &mut mentioned);
+                for (idx, _, captured) in act.loop_scopes.iter_mut() {
+                    if act.scopes[*idx].iter().any(|(n, _)| !n.is_empty() && mentioned.contains(n)) {
+                        *captured = true;
+                    }
+                }
                 // snapshot of every variable visible here (innermost first); cells are shared
                 let mut cap: Vec<(String, Cell)> = vec![];
                 for scope in act.scopes.iter().rev() {
@@ -662,6 +677,10 @@ impl<'p> Interp<'p> {
             }
             Expr::CreateTable => RV::new_table(),
             Expr::Array(items) => {
+                // the VM leaves one nil per element on its stack (known finding): same effect
+                // as a statement-level value
+                act.junk += items.len() as u64;
+                self.stats.array_junk += items.len() as u64;
                 let t = RV::new_table();
                 for it in items {
                     let v = self.eval(act, it)?;
@@ -735,6 +754,16 @@ impl<'p> Interp<'p> {
         Ok(())
     }
 
+    /// The VM closes a captured loop-body local by looking at the top of the stack; a
+    /// statement-level value left above it (known finding) changes what is closed.
+    fn leave_loop_scope(&mut self, act: &mut Activation) {
+        if let Some((_, junk_at_entry, captured)) = act.loop_scopes.pop() {
+            if captured && act.junk > junk_at_entry {
+                self.tags.insert("junk_above_captured_local".into());
+            }
+        }
+    }
+
     fn in_loop<T>(&mut self, f: impl FnOnce(&mut Self) -> T) -> T {
         self.loop_depth += 1;
         let r = f(self);
@@ -804,11 +833,13 @@ impl<'p> Interp<'p> {
                         me.stats.loop_iterations += 1;
                         me.stats.loop_iterations_with_local += 1;
                         act.scopes.push(vec![]);
+                        act.loop_scopes.push((act.scopes.len() - 1, act.junk, false));
                         if let Some(name) = i {
                             me.declare(act, name, RV::Int(counter));
                         }
                         let r = me.exec(act, b);
                         act.scopes.pop();
+                        me.leave_loop_scope(act);
                         match r? {
                             Flow::Normal => {}
                             Flow::Return(v) => {
@@ -849,6 +880,7 @@ impl<'p> Interp<'p> {
                         me.stats.loop_iterations += 1;
                         me.stats.loop_iterations_with_local += 1;
                         act.scopes.push(vec![]);
+                        act.loop_scopes.push((act.scopes.len() - 1, act.junk, false));
                         if let Some(name) = v {
                             me.declare(act, name, val);
                         }
@@ -861,6 +893,7 @@ impl<'p> Interp<'p> {
                         let len_before = t.borrow().len();
                         let r = me.exec(act, body);
                         act.scopes.pop();
+                        me.leave_loop_scope(act);
                         if t.borrow().len() != len_before {
                             me.tags.insert("mutate_during_foreach".into());
                         }
@@ -909,6 +942,7 @@ impl<'p> Interp<'p> {
             }
             Stmt::ExprStmt(e) => {
                 self.stats.expr_stmts += 1;
+                act.junk += 1;
                 if self.loop_depth > 0 {
                     self.tags.insert("expr_stmt_in_loop".into());
                 }
@@ -917,4 +951,72 @@ impl<'p> Interp<'p> {
         }
         Ok(Flow::Normal)
     }
+}
+
+fn names_in_expr(e: &Expr, out: &mut BTreeSet<String>) {
+    match e {
+        Expr::Var(n) => {
+            out.insert(n.split('.').next().unwrap_or("").to_string());
+        }
+        Expr::Bin(_, a, b) | Expr::GetProp(a, b) | Expr::Get(a, b) => {
+            names_in_expr(a, out);
+            names_in_expr(b, out);
+        }
+        Expr::Not(a) | Expr::Len(a) | Expr::PopTable(a) => names_in_expr(a, out),
+        Expr::IfElse(a, b, c) => {
+            names_in_expr(a, out);
+            names_in_expr(b, out);
+            names_in_expr(c, out);
+        }
+        Expr::Call(_, _, args) | Expr::CallNative(_, args) | Expr::Array(args) => args.iter().for_each(|a| names_in_expr(a, out)),
+        Expr::DynCall(f, args) => {
+            names_in_expr(f, out);
+            args.iter().for_each(|a| names_in_expr(a, out));
+        }
+        Expr::Closure(d) => names_in_closure(d, out),
+        Expr::Composite(stmts, v) => {
+            stmts.iter().for_each(|s| names_in_stmt(s, out));
+            names_in_expr(v, out);
+        }
+        Expr::Nil | Expr::Int(_) | Expr::Real(_) | Expr::Str(_) | Expr::FuncRef(..) | Expr::NativeRef(_) | Expr::CreateTable => {}
+    }
+}
+
+fn names_in_stmt(s: &Stmt, out: &mut BTreeSet<String>) {
+    match s {
+        Stmt::SetVar(n, e) => {
+            out.insert(n.split('.').next().unwrap_or("").to_string());
+            names_in_expr(e, out);
+        }
+        Stmt::SetGlobal(_, e) | Stmt::Return(e) | Stmt::ExprStmt(e) => names_in_expr(e, out),
+        Stmt::IfTrue(c, b) | Stmt::IfFalse(c, b) | Stmt::While(c, b) | Stmt::Repeat(c, _, b) => {
+            names_in_expr(c, out);
+            names_in_stmt(b, out);
+        }
+        Stmt::IfElse(c, t, f) => {
+            names_in_expr(c, out);
+            names_in_stmt(t, out);
+            names_in_stmt(f, out);
+        }
+        Stmt::ForEach { iterable, body, .. } => {
+            names_in_expr(iterable, out);
+            names_in_stmt(body, out);
+        }
+        Stmt::Composite(v) => v.iter().for_each(|s| names_in_stmt(s, out)),
+        Stmt::SetProp(a, b, c) => {
+            names_in_expr(a, out);
+            names_in_expr(b, out);
+            names_in_expr(c, out);
+        }
+        Stmt::Append(a, b) => {
+            names_in_expr(a, out);
+            names_in_expr(b, out);
+        }
+        Stmt::Abort | Stmt::Comment(_) => {}
+    }
+}
+
+/// every variable name a closure body (and the closures nested in it) mentions
+pub fn names_in_closure(d: &ClosureDef, out: &mut BTreeSet<String>) {
+    d.body.iter().for_each(|s| names_in_stmt(s, out));
 }
